@@ -45,6 +45,32 @@ def run(tier, seed, replay=None):
                 b = O.gen_obj(rng, pardim=pd, dir_kinds=dk, nint_max=2, pmax={1: 5, 2: 4, 3: 3}[pd], big_periodic=True, multi=0.7)
                 todo.append((a, b, None))
                 continue
+            if rng.random() < 0.12:
+                # seam pairs: two periodic objects on the SAME bases (so nothing is lowered or raised); the seam knot is inserted
+                # once more into the first one below (marker '_seam'), so the seam multiplicities differ
+                pd_ = rng.choice([1, 1, 2])
+                a = O.gen_obj(rng, pardim=pd_, dir_kinds=['periodic'] * pd_, nint_max=2, pmax=4, big_periodic=True)
+                # smooth seams (order 4 or 5, continuity order-2: seam multiplicity 1), enough functions
+                import gen_basis as GB_
+                for i_ in range(pd_):
+                    p_ = rng.choice([4, 4, 5])
+                    nb_ = rng.randint(2 * p_, 2 * p_ + 3)
+                    brk_ = [Fr(rng.randint(-3, 3))]
+                    for _ in range(nb_):
+                        brk_.append(brk_[-1] + Fr(rng.choice([1, 2, 3]), rng.choice([1, 2])))
+                    a['bases'][i_] = dict(order=p_, knots=GB_.periodic_knots(p_, brk_, [1] * (nb_ - 1), p_ - 2), periodic=p_ - 2, kind='periodic')
+                n_ = 1
+                for x_ in a['bases']:
+                    n_ *= O.nfun(x_)
+                nc_ = len(a['cps'][0])
+                a['cps'] = [[Fr(rng.randint(-16, 16), 2) if c_ < a['dim'] else Fr(rng.choice([1, 2, 3]), 2) for c_ in range(nc_)] for _ in range(n_)]
+                if a['rational']:
+                    a['cps'] = [[x_ * pt_[-1] for x_ in pt_[:-1]] + [pt_[-1]] for pt_ in a['cps']]
+                a['ctor'], a['intcps'] = 'raw', False
+                b = dict(a, cps=[list(pt_) for pt_ in reversed(a['cps'])], bases=[dict(x_, knots=list(x_['knots'])) for x_ in a['bases']])
+                a['_seam'] = True
+                todo.append((a, b, None))
+                continue
             a = O.gen_obj(rng, pardim=pd, kinds=kinds, nint_max=2, pmax={1: 4, 2: 4, 3: 3}[pd], big_periodic=bigp)
             b = O.gen_obj(rng, pardim=pd, kinds=kinds, nint_max=2, pmax={1: 4, 2: 4, 3: 3}[pd], big_periodic=bigp)
             if rng.random() < 0.2:
@@ -64,12 +90,13 @@ def run(tier, seed, replay=None):
     for sa, sb, forced in todo:
         pd = len(sa['bases'])
         a, b = O.make_impl(sa), O.make_impl(sb)
-        if not forced and rng.random() < 0.25:
+        if not forced and (sa.get('_seam') or rng.random() < 0.25):
             # the seam knot of a periodic direction inserted once more in one operand (its multiplicity at the seam then differs
-            # from the other operand's): the common knot vector must take the larger multiplicity there, once
+            # from the other operand's): the common knot vector must take the larger multiplicity there, once.  Only between
+            # operands of equal periodicity: lowering the periodicity of an object whose seam knot was refined is outside this check
             for d_, (ba_, bb_) in enumerate(zip(sa['bases'], sb['bases'])):
-                if ba_['periodic'] >= 0 and bb_['periodic'] >= 0 and O.nfun(ba_) >= ba_['order'] + ba_['periodic'] + 1 and O.nfun(bb_) >= bb_['order'] + bb_['periodic'] + 1:
-                    tgt_, bt_ = (a, ba_) if rng.random() < 0.5 else (b, bb_)
+                if ba_['periodic'] >= 0 and bb_['periodic'] == ba_['periodic'] and O.nfun(ba_) >= ba_['order'] + ba_['periodic'] + 1 and O.nfun(bb_) >= bb_['order'] + bb_['periodic'] + 1:
+                    tgt_, bt_ = (a, ba_) if (sa.get('_seam') or rng.random() < 0.5) else (b, bb_)
                     st_ = O.domain(bt_)[0]
                     if sum(1 for x_ in bt_['knots'] if x_ == st_) + 1 > bt_['order'] - 2:
                         continue        # keep the object C1 across the seam (order elevation of less smooth objects: the C05 findings)
